@@ -5,7 +5,7 @@ every piece of generator state that value production mutates is re-initialised
 by setSeed() of the same dynamic class, or is dead until rewritten because it
 is guarded by a flag/index that setSeed() resets."""
 from ..facts import extract, units_matching, Program, AnalysisBroken, sx_find, sx_str
-from ..match import ev_write, is_call, call_args, call_obj, field_of, var_of, guard_blocks
+from ..match import ev_write, is_call, call_args, call_obj, field_of, var_of, guard_blocks, known_edges, only_via, effective_calls
 from .c18 import _is_lit
 
 RI = "SimTK::Random::RandomImpl"
@@ -34,6 +34,19 @@ def mods(P, fn, depth=2, seen=()):
                 for g in P.by_id.get(c, []):
                     if g.cls and "Random" in g.cls:
                         out |= mods(P, g, depth - 1, seen + (fn.id,))
+    return out
+
+
+def _guard_writes(P, fn, guard, depth=2, seen=()):
+    """right-hand sides of the writes of field `guard` made by fn or by the class-internal helpers it calls"""
+    out = [sx_str(ev_write(e)[2]) for _, _, e in fn.events(lambda e: bool(ev_write(e)) and field_of(ev_write(e)[0]) == guard)]
+    if depth > 0:
+        for _, _, e in fn.calls():
+            c = e.get("fid")
+            if c and c not in seen and c != fn.id:
+                for g in P.by_id.get(c, []):
+                    if g.cls and "Random" in g.cls and not g.name.endswith("::setSeed"):
+                        out += _guard_writes(P, g, guard, depth - 1, seen + (fn.id,))
     return out
 
 
@@ -72,36 +85,38 @@ def run(chk, tier, overlays=()):
                 # setSeed assigns the tabled value to the guard
                 gw = []
                 for s in [base_set] + setters:
-                    for _, _, e in s.events(lambda e: bool(ev_write(e)) and field_of(ev_write(e)[0]) == guard):
-                        gw.append(sx_str(ev_write(e)[2]))
+                    gw += _guard_writes(P, s, guard)
                 ok = ok and bool(gw) and all(val in g for g in gw)
                 chk.judge(ok, "EFFECT", inst + ":dead-under-" + guard.split("::")[-1], "", "%s; setSeed must reset %s to %s (writes: %s)" % (why, guard.split("::")[-1], val, gw))
                 continue
             chk.violation("EFFECT", inst + ":not-reset", "", "generator state %s is modified while producing values but not re-initialised by %s::setSeed: output after setSeed(s) depends on history" % (fld, cls))
     # the seed reaches the generator
     seed = base_set.d["params"][0][0]
-    ig = [e for _, _, e in base_set.calls() if e.get("fn", "").endswith("init_gen_rand")]
+    tgt = sorted({e["fn"] for f in P.all_fns() for _, _, e in f.calls() if str(e.get("fn", "")).split("::")[-1] == "init_gen_rand"})
+    ig = [ee for t in tgt for _, _, _, ee in effective_calls(P, base_set, t)]
     chk.judge(len(ig) == 1 and var_of(call_args(ig[0])[0]) == seed, "EFFECT", "setSeed:init_gen_rand(seed)", base_set.loc, "the SFMT state is re-initialised from the seed argument")
     # reads of dead-under state are guarded
     gi = "SimTK::Random::Gaussian::GaussianImpl"
     gv = [f for f in P.methods_of(gi) if f.name.endswith("::getValue")]
     for f in gv:
         reads = [(b, i, e) for b, i, e in f.events(lambda e: e["k"] == "mem" and e["field"] == gi + "::nextGaussian" and e["acc"] == "r")]
-        gb = guard_blocks(f, lambda c: field_of(c) == gi + "::nextGaussianIsValid", 0)
+        isflag = lambda c: isinstance(c, list) and bool(c) and c[0] == "mem" and c[2] == gi + "::nextGaussianIsValid"
+        edges = known_edges(f, isflag, lambda c: False)
+        gb = {b for b in f.blocks if only_via(f, b, edges)}
         chk.judge(bool(reads) and all(b in gb for b, i, e in reads), "EFFECT", "Gaussian:getValue:nextGaussian-read-under-flag", f.loc, "the saved deviate is read only under nextGaussianIsValid")
     gn = P.fn(RI + "::getNextRandom")
     reads = [(b, i, e) for b, i, e in gn.events(lambda e: e["k"] == "mem" and e["field"] == RI + "::buffer" and e["acc"] == "r")]
-    refill = [(b, i) for b, i, e in gn.calls() if e.get("fn", "").endswith("fill_array64")]
-    ok = bool(reads) and bool(refill)
-    tests = [bb for bb, blk in gn.blocks.items() if blk.get("term") and blk["term"].get("cond") and len(blk["succ"]) > 1 and
-             sx_find(blk["term"]["cond"], lambda y: y[0] == "mem" and y[2] == RI + "::nextIndex") and
-             sx_find(blk["term"]["cond"], lambda y: y[0] in ("gvar", "mem", "ref") and str(y[-1]).endswith("bufferSize"))]
-    ok = ok and len(tests) == 1
+    is_refill = lambda q: q["k"] == "call" and q.get("fn", "").endswith("fill_array64")     # (lifted through helpers by path_exists)
+    def cmp_(c, ops):
+        return isinstance(c, list) and len(c) == 4 and c[0] == "op" and c[1] in ops and field_of(c[2]) == RI + "::nextIndex" and bool(sx_find(c[3], lambda y: y[0] in ("gvar", "mem", "ref") and str(y[-1]).endswith("bufferSize")))
+    exhausted = known_edges(gn, lambda c: cmp_(c, (">=",)), lambda c: cmp_(c, ("<",)))
+    tests = sorted({tb for tb, _ in exhausted})
+    ok = bool(reads) and len(tests) == 1
     for b, i, e in reads:
-        for tb in tests:
+        for tb, sb in sorted(exhausted):
             ok = ok and tb in gn.dominators().get(b, ())
             # on the "exhausted" side the buffer is refilled before it is read
-            p = gn.path_exists((gn.blocks[tb]["succ"][0], -1), lambda q, e=e: q is e, lambda q: q["k"] == "call" and q.get("fn", "").endswith("fill_array64"))
+            p = gn.path_exists((sb, -1), lambda q, e=e: q is e, is_refill)
             ok = ok and p is None
     chk.judge(ok, "EFFECT", "getNextRandom:buffer-read-after-refill-or-index-check", gn.loc, "the buffer is read only after the nextIndex test (refill when exhausted)")
     chk.floor("EFFECT", 12)
